@@ -24,7 +24,7 @@ ASSUMPTIONS = [
     "real-valued cases with an exit->entry distance (between different particles) within 1e-9 of 0, min_distance or max_distance are filtered (boundary ties); on the integer lattice family exact hits are decidable and kept (only coincident sites are dropped)",
     "object numbers identify chains per tomogram (they restart in every tomogram), so 'chain' = (tomogram, object)",
 ]
-BUDGET = {"quick": {"examples": 1100, "seconds": 85}, "thorough": {"examples": 3000, "seconds": 540}}
+BUDGET = {"quick": {"examples": 700, "seconds": 85}, "thorough": {"examples": 3000, "seconds": 540}}
 
 C = oracle.MOTL_COLUMNS
 IX = {c: i for i, c in enumerate(C)}
@@ -201,37 +201,31 @@ def _install():
     ribana._verif_wrapped = True
 
 
-def run(case):
-    import pandas as pd
-    from cryocat import cryomotl, ribana
-
-    out = Outcome()
-    _install()
-    E, X, tomo, ids = build(case)
-    n = len(E)
-    if case["family"] == "mutate":
-        base = _corpus()[case["base"] % len(_corpus())]
-        case = dict(case, dmax=base["dmax"] * case["scale"])
-    dmax, dmin = float(case["dmax"]), float(case["dmin"])
-    if n < 2:
-        out.filtered = "fewer_than_2_particles"
-        return out
-    # boundary-tie filter on exit_a -> entry_b distances within a tomogram
+def ties(E, X, tomo, dmax, dmin, lattice):
+    """returns (filtered_reason|None, exact_hit)"""
+    hit = False
     for t in np.unique(tomo):
         sel = tomo == t
         D = np.linalg.norm(X[sel][:, None, :] - E[sel][None, :, :], axis=2)
-        off = ~np.eye(sel.sum(), dtype=bool)
-        Do = D[off]
-        if case["family"] == "lattice":
-            # integer coordinates: squared distances are exact integers, so a boundary hit is decidable; only coincident sites are dropped
-            if Do.size and np.any(Do == 0):
-                out.filtered = "coincident_sites"
-                return out
-            if Do.size and (np.any(Do == dmax) or np.any(Do == dmin)):
-                out.label("exact_hit_of_min_or_max_distance")
-        elif Do.size and (np.any(np.abs(Do - dmax) < 1e-9) or np.any(np.abs(Do - dmin) < 1e-9) or np.any(Do < 1e-9)):
-            out.filtered = "boundary_tie"
-            return out
+        Do = D[~np.eye(sel.sum(), dtype=bool)]
+        if not Do.size:
+            continue
+        if lattice:
+            if np.any(Do == 0):
+                return "coincident_sites", hit
+            if np.any(Do == dmax) or np.any(Do == dmin):
+                hit = True
+        elif np.any(np.abs(Do - dmax) < 1e-9) or np.any(np.abs(Do - dmin) < 1e-9) or np.any(Do < 1e-9):
+            return "boundary_tie", hit
+    return None, hit
+
+
+def trace_and_validate(out, E, X, tomo, ids, dmax, dmin, tag=""):
+    """one call of trace_chains + the validity predicate; returns the set of branches that fired (None if the call raised)."""
+    import pandas as pd
+    from cryocat import cryomotl, ribana
+
+    n = len(E)
 
     def table(P):
         a = np.zeros((n, 20))
@@ -249,27 +243,25 @@ def run(case):
     del _calls[:]
     ok, res = call(out, "trace_chains", lambda: ribana.trace_chains(cryomotl.Motl(dfE.copy()), cryomotl.Motl(dfX.copy()), dmax, dmin))
     branches = sorted(set(_calls))
-    out.label(f"family:{case['family']}", f"tomograms:{len(np.unique(tomo))}", *(f"branch:{b}" for b in branches))
-    out.nontrivial = any(b in ("suffix_accepted", "prefix_performed", "prefix_performed_both_sides") for b in branches)
-    btag = "+".join(b for b in branches if b != "suffix_rejected" and not b.startswith("prefix_rejected")) or "no_merge"
+    btag = tag + ("+".join(b for b in branches if b != "suffix_rejected" and not b.startswith("prefix_rejected")) or "no_merge")
     if not ok:
         sig, det = out.violations[-1]
         out.violations[-1] = (f"{sig}:{btag}", det)
-        return out
+        return branches
     o = res.df
     if not out.check(sorted(o.columns) == sorted(C) and len(o.columns) == 20, "columns", list(o.columns)):
-        return out
+        return branches
     got = o[C].to_numpy(dtype=float)
     if sorted(got[:, IX["subtomo_id"]].tolist()) != sorted(ids.tolist()):
         out.fail(f"particles_lost_or_duplicated:{btag}", f"{len(got)} rows for {n} particles")
-        return out
+        return branches
     row_of = {ids[i]: i for i in range(n)}
     skip = {IX["object_id"], IX["geom2"], IX["geom4"]}
     for r in got:
         i = row_of[r[IX["subtomo_id"]]]
         if any(r[j] != aE[i, j] for j in range(20) if j not in skip):
             out.fail(f"other_field_changed:{btag}", f"particle {r[IX['subtomo_id']]}")
-            return out
+            return branches
     chains = {}
     for r in got:
         chains.setdefault((r[IX["tomo_id"]], r[IX["object_id"]]), []).append(r)
@@ -279,14 +271,48 @@ def run(case):
         if orders != [float(v) for v in range(1, len(members) + 1)]:
             dup = len(set(orders)) < len(orders)
             out.fail(f"order_numbers_{'repeated' if dup else 'not_1_to_m'}:{btag}", f"tomogram {t} chain {obj}: particles {[int(r[IX['subtomo_id']]) for r in members]} orders {orders}")
-            return out
+            return branches
         for ra, rb in zip(members[:-1], members[1:]):
             ia, ib = row_of[ra[IX["subtomo_id"]]], row_of[rb[IX["subtomo_id"]]]
             d = float(np.linalg.norm(X[ia] - E[ib]))
             if not (dmin < d <= dmax):
                 out.fail(f"link_outside_min_max:{btag}", f"tomogram {t} chain {obj}: {int(ids[ia])}->{int(ids[ib])} distance {d:.4f} not in ({dmin}, {dmax}]")
-                return out
+                return branches
             if abs(d - ra[IX["geom4"]]) > 1e-6:
                 out.fail(f"recorded_distance_wrong:{btag}", f"tomogram {t} chain {obj}: link {int(ids[ia])}->{int(ids[ib])} is {d:.4f}, recorded {ra[IX['geom4']]:.4f}")
-                return out
+                return branches
+    return branches
+
+
+def run(case):
+    out = Outcome()
+    _install()
+    E, X, tomo, ids = build(case)
+    n = len(E)
+    if case["family"] == "mutate":
+        base = _corpus()[case["base"] % len(_corpus())]
+        case = dict(case, dmax=base["dmax"] * case["scale"])
+    dmax, dmin = float(case["dmax"]), float(case["dmin"])
+    if n < 2:
+        out.filtered = "fewer_than_2_particles"
+        return out
+    lattice = case["family"] == "lattice"
+    reason, hit = ties(E, X, tomo, dmax, dmin, lattice)
+    if reason:
+        out.filtered = reason
+        return out
+    if hit:
+        out.label("exact_hit_of_min_or_max_distance")
+    branches = trace_and_validate(out, E, X, tomo, ids, dmax, dmin)
+    out.label(f"family:{case['family']}", f"tomograms:{len(np.unique(tomo))}", *(f"branch:{b}" for b in branches))
+    out.nontrivial = any(b in ("suffix_accepted", "prefix_performed", "prefix_performed_both_sides") for b in branches)
+    if out.violations or lattice:
+        return out
+    # the same entry sites with other exit sites, in the same process: the second answer must follow the second input
+    rng = np.random.default_rng(case["ids_seed"] + 17)
+    X2 = X + rng.normal(0, 0.35 * dmax, X.shape)
+    reason2, _ = ties(E, X2, tomo, dmax, dmin, False)
+    if reason2 is None:
+        trace_and_validate(out, E, X2, tomo, ids, dmax, dmin, tag="second_call_same_entries:")
+        out.label("second_call")
     return out
